@@ -6,6 +6,7 @@ Stable API
     build(tree) -> spec_obj            tree record -> real combinator objects
     canon(value, tree=None, pod=None)  Python value (rich or plain-data) -> canonical JSON-able value
     to_py(tree, cvalue, pod=False)     canonical value -> Python value in rich / plain-data flavour
+    reorder(pyvalue, k)                the same value with every mapping inside it in another key order
 
 Tree records and canonical values are documented at the top of specs/Combinators.tla.  Fields the
 TLA+ side ignores (Python-only decorations): template.dc / bitfield.dc (dataclass flavour),
@@ -748,3 +749,57 @@ def _flag_py(cls, n: int, pod: bool):
             names.append(name)
             left &= ~m.value
     return tuple(names) + ((left,) if left else ())
+
+
+# ----------------------------------------------------------------------------------------
+# key orders of map-like values
+# ----------------------------------------------------------------------------------------
+
+def _perm(n: int, k):
+    """Index order number k for n keys: "rev" = reversed, an int = k-th permutation (lexicographic, wrapping)."""
+    import itertools
+    import math
+    if k == "rev":
+        return list(range(n - 1, -1, -1))
+    if n <= 1:
+        return list(range(n))
+    if n <= 6:
+        return list(next(itertools.islice(itertools.permutations(range(n)), k % math.factorial(n), None)))
+    # long mappings: rotate by k
+    return [(j + k) % n for j in range(n)]
+
+
+def reorder(value, k):
+    """The same Python value with every mapping inside it rebuilt in another key (insertion) order.
+    A map-like value (template / dataclass dict input, FlagSwitch value, bitfield dict) is an unordered
+    mapping: every insertion order denotes the same canonical value."""
+    if isinstance(value, dict):
+        items = [(kk, reorder(vv, k)) for kk, vv in value.items()]
+        return type(value)((items[j][0], items[j][1]) for j in _perm(len(items), k))
+    if isinstance(value, dtypes.TaggedUnion):
+        return dtypes.TaggedUnion(value.tag, reorder(value.value, k))
+    if isinstance(value, tuple) and type(value) is tuple:
+        return tuple(reorder(x, k) for x in value)
+    if isinstance(value, list):
+        return [reorder(x, k) for x in value]
+    if dataclasses.is_dataclass(value) and not isinstance(value, type):
+        return dataclasses.replace(value, **{f.name: reorder(getattr(value, f.name), k) for f in dataclasses.fields(value)})
+    return value
+
+
+def key_orders(value) -> list:
+    """Key orders of all mappings inside a value (to tell apart re-orderings that changed nothing)."""
+    out = []
+    if isinstance(value, dict):
+        out.append([str(k) for k in value])
+        for v in value.values():
+            out += key_orders(v)
+    elif isinstance(value, dtypes.TaggedUnion):
+        out += key_orders(value.value)
+    elif isinstance(value, (list, tuple)):
+        for v in value:
+            out += key_orders(v)
+    elif dataclasses.is_dataclass(value) and not isinstance(value, type):
+        for f in dataclasses.fields(value):
+            out += key_orders(getattr(value, f.name))
+    return out
